@@ -51,26 +51,26 @@ theorem tie_PlaceBid (c : Ctx) (bidder : Acc) (aid : Nat) (t : BidType) (price :
     placeBid c bidder aid t price denom amt =
        Go.runPlan c aid v (Gen.PlaceBid ⟨bidder, aid, t, price, denom, amt⟩
           (rdAuction c.s) (rdNextBidId c.s) (rdBidsByBidder c.s) (rdAllowed c.s)).2 := by
+  -- `msg.AuctionId` and `auction.GetId()` are the same key: eliminate `aid` in favour of `v.a.id`
+  -- before anything else, so that both spellings in the translated code have one normal form
+  subst hid
   unfold placeBid Gen.PlaceBid
-  have hA : rdAuction c.s (aid : Int) = (v.a, false) := by simp [rdAuction, hv]
-  have hB : rdAllowed c.s (aid : Int) bidder =
+  have hA : rdAuction c.s (v.a.id : Int) = (v.a, false) := by simp [rdAuction, hv]
+  have hB : rdAllowed c.s (v.a.id : Int) bidder =
       ((lookupAllowed v.allowed bidder).getD default, (lookupAllowed v.allowed bidder).isNone) := by
     simp [rdAllowed, hv]
-  have hB' : rdAllowed c.s (v.a.id : Int) bidder =
-      ((lookupAllowed v.allowed bidder).getD default, (lookupAllowed v.allowed bidder).isNone) := by
-    rw [hid]; exact hB
   have hN : rdNextBidId c.s (v.a.id : Int) = ((v.bidSeq + 1 : Nat) : Int) := by
-    rw [hid]; simp [rdNextBidId, hv]
+    simp [rdNextBidId, hv]
   simp only [Ctx.view, hv, tie_ValidateBatchWorthBid, tie_ValidateBatchManyBid, tie_ValidateFixedPriceBid,
-    tie_ConvertToPayingAmount, tie_ConvertToSellingAmount, hL, apply_ite Prod.snd, apply_ite (runPlan c aid v),
-    hA, hB', hN, Int.toNat_natCast, hB]
+    tie_ConvertToPayingAmount, tie_ConvertToSellingAmount, hL, apply_ite Prod.snd, apply_ite (runPlan c v.a.id v),
+    hA, hN, Int.toNat_natCast, hB]
   have hsb : ∀ b : Bid, b.id = v.bidSeq + 1 → setBid v.bids b = v.bids ++ [b] :=
     fun b hb => setBid_fresh _ _ (by rw [hb]; exact hfresh)
   cases t with
   | fixed =>
     simp only [Int.toNat_natCast, hacc, okbind, bidderTotal]
-    obtain ⟨q, hq⟩ : ∃ q, Bid.toSelling ⟨aid, v.bidSeq+1, bidder, .fixed, price, denom, amt, false⟩ v.a.payDenom = q := ⟨_, rfl⟩
-    obtain ⟨p, hp⟩ : ∃ q, Bid.toPaying ⟨aid, v.bidSeq+1, bidder, .fixed, price, denom, amt, false⟩ v.a.payDenom = q := ⟨_, rfl⟩
+    obtain ⟨q, hq⟩ : ∃ q, Bid.toSelling ⟨v.a.id, v.bidSeq+1, bidder, .fixed, price, denom, amt, false⟩ v.a.payDenom = q := ⟨_, rfl⟩
+    obtain ⟨p, hp⟩ : ∃ q, Bid.toPaying ⟨v.a.id, v.bidSeq+1, bidder, .fixed, price, denom, amt, false⟩ v.a.payDenom = q := ⟨_, rfl⟩
     obtain ⟨tot, htot⟩ : ∃ q, List.foldl (fun s b => s + b.toSelling v.a.payDenom) 0 (List.filter (fun x => x.bidder == bidder) v.bids) = q := ⟨_, rfl⟩
     simp only [hq, hp, htot]
     clear hq hp htot
@@ -90,15 +90,15 @@ theorem tie_PlaceBid (c : Ctx) (bidder : Acc) (aid : Nat) (t : BidType) (price :
         cases hmk : mkCoins c1 v.a.payDenom p with
         | error e => tie_simp [hfee, hmk]; try grind
         | ok coins =>
-        cases hb : c1.bankCall .send (.user bidder) (.pay aid) coins with
+        cases hb : c1.bankCall .send (.user bidder) (.pay v.a.id) coins with
         | error e => tie_simp [hfee, hmk, hb]; try grind
         | ok c2 =>
-        cases hh : c2.hook "BeforeBidPlaced" [rNat aid, rNat (v.bidSeq + 1), rAcc bidder, rBidType BidType.fixed, rInt price, rNat denom, rInt amt] <;>
-        tie_simp [hfee, hmk, hb, hh, hsb, hid] <;> try grind
+        cases hh : c2.hook "BeforeBidPlaced" [rNat v.a.id, rNat (v.bidSeq + 1), rAcc bidder, rBidType BidType.fixed, rInt price, rNat denom, rInt amt] <;>
+        tie_simp [hfee, hmk, hb, hh, hsb] <;> try grind
   | worth =>
     simp only [Int.toNat_natCast, hacc, okbind]
-    obtain ⟨q, hq⟩ : ∃ q, Bid.toSelling ⟨aid, v.bidSeq+1, bidder, .worth, price, denom, amt, false⟩ v.a.payDenom = q := ⟨_, rfl⟩
-    obtain ⟨p, hp⟩ : ∃ q, Bid.toPaying ⟨aid, v.bidSeq+1, bidder, .worth, price, denom, amt, false⟩ v.a.payDenom = q := ⟨_, rfl⟩
+    obtain ⟨q, hq⟩ : ∃ q, Bid.toSelling ⟨v.a.id, v.bidSeq+1, bidder, .worth, price, denom, amt, false⟩ v.a.payDenom = q := ⟨_, rfl⟩
+    obtain ⟨p, hp⟩ : ∃ q, Bid.toPaying ⟨v.a.id, v.bidSeq+1, bidder, .worth, price, denom, amt, false⟩ v.a.payDenom = q := ⟨_, rfl⟩
     simp only [hq, hp]
     clear hq hp
     cases hab : lookupAllowed v.allowed bidder with
@@ -117,15 +117,15 @@ theorem tie_PlaceBid (c : Ctx) (bidder : Acc) (aid : Nat) (t : BidType) (price :
         cases hmk : mkCoins c1 denom amt with
         | error e => tie_simp [hfee, hmk]; try grind
         | ok coins =>
-        cases hb : c1.bankCall .send (.user bidder) (.pay aid) coins with
+        cases hb : c1.bankCall .send (.user bidder) (.pay v.a.id) coins with
         | error e => tie_simp [hfee, hmk, hb]; try grind
         | ok c2 =>
-        cases hh : c2.hook "BeforeBidPlaced" [rNat aid, rNat (v.bidSeq + 1), rAcc bidder, rBidType BidType.worth, rInt price, rNat denom, rInt amt] <;>
-        tie_simp [hfee, hmk, hb, hh, hsb, hid] <;> try grind
+        cases hh : c2.hook "BeforeBidPlaced" [rNat v.a.id, rNat (v.bidSeq + 1), rAcc bidder, rBidType BidType.worth, rInt price, rNat denom, rInt amt] <;>
+        tie_simp [hfee, hmk, hb, hh, hsb] <;> try grind
   | many =>
     simp only [Int.toNat_natCast, hacc, okbind]
-    obtain ⟨q, hq⟩ : ∃ q, Bid.toSelling ⟨aid, v.bidSeq+1, bidder, .many, price, denom, amt, false⟩ v.a.payDenom = q := ⟨_, rfl⟩
-    obtain ⟨p, hp⟩ : ∃ q, Bid.toPaying ⟨aid, v.bidSeq+1, bidder, .many, price, denom, amt, false⟩ v.a.payDenom = q := ⟨_, rfl⟩
+    obtain ⟨q, hq⟩ : ∃ q, Bid.toSelling ⟨v.a.id, v.bidSeq+1, bidder, .many, price, denom, amt, false⟩ v.a.payDenom = q := ⟨_, rfl⟩
+    obtain ⟨p, hp⟩ : ∃ q, Bid.toPaying ⟨v.a.id, v.bidSeq+1, bidder, .many, price, denom, amt, false⟩ v.a.payDenom = q := ⟨_, rfl⟩
     simp only [hq, hp]
     clear hq hp
     cases hab : lookupAllowed v.allowed bidder with
@@ -144,11 +144,11 @@ theorem tie_PlaceBid (c : Ctx) (bidder : Acc) (aid : Nat) (t : BidType) (price :
         cases hmk : mkCoins c1 v.a.payDenom p with
         | error e => tie_simp [hfee, hmk]; try grind
         | ok coins =>
-        cases hb : c1.bankCall .send (.user bidder) (.pay aid) coins with
+        cases hb : c1.bankCall .send (.user bidder) (.pay v.a.id) coins with
         | error e => tie_simp [hfee, hmk, hb]; try grind
         | ok c2 =>
-        cases hh : c2.hook "BeforeBidPlaced" [rNat aid, rNat (v.bidSeq + 1), rAcc bidder, rBidType BidType.many, rInt price, rNat denom, rInt amt] <;>
-        tie_simp [hfee, hmk, hb, hh, hsb, hid] <;> try grind
+        cases hh : c2.hook "BeforeBidPlaced" [rNat v.a.id, rNat (v.bidSeq + 1), rAcc bidder, rBidType BidType.many, rInt price, rNat denom, rInt amt] <;>
+        tie_simp [hfee, hmk, hb, hh, hsb] <;> try grind
 
 /-- an unknown auction id: both reject without any effect -/
 theorem tie_PlaceBid_noAuction (c : Ctx) (bidder : Acc) (aid : Nat) (t : BidType) (price : Dec) (denom : Denom) (amt : Int)
